@@ -231,6 +231,20 @@ lazy_static! {
 }
 
 /// 童限（从出生到起运的时间段）
+/// Verification hook (compiled only with `--cfg tyme4rs_verif`): select one of the shipped child-limit strategies
+/// (0 = Default, 1 = China95, 2 = LunarSect1, 3 = LunarSect2); the static has no public setter.
+#[cfg(tyme4rs_verif)]
+pub fn verif_set_child_limit_provider(which: usize) {
+  use crate::tyme::eightchar::provider::{China95ChildLimitProvider, LunarSect1ChildLimitProvider, LunarSect2ChildLimitProvider};
+  let mut p = match CHILD_LIMIT_PROVIDER.lock() { Ok(g) => g, Err(e) => e.into_inner() };
+  *p = match which {
+    1 => Box::new(China95ChildLimitProvider::new()),
+    2 => Box::new(LunarSect1ChildLimitProvider::new()),
+    3 => Box::new(LunarSect2ChildLimitProvider::new()),
+    _ => Box::new(DefaultChildLimitProvider::new()),
+  };
+}
+
 #[derive(Debug, Clone)]
 pub struct ChildLimit {
   eight_char: EightChar,
